@@ -123,43 +123,23 @@ def posVal (c : Cfg Nat) (t : T) (p : Pos) : String :=
   | some sl => s!"{sl.key}={sl.val}"
   | none => "end"
 
-/-- walk forward from begin to end: count and order-sensitive hash of (pos,key,val) -/
-def iterFwd (c : Cfg Nat) (t : T) : String := Id.run do
-  let mut h : UInt64 := 7
-  let mut n := 0
-  let mut p := t.cur.itBegin c.S
-  let e := t.cur.endPos
-  let mut fuel := t.cur.cells.size + 1
-  let mut seq := ""
-  while p != e && fuel > 0 do
+def hashPositions (c : Cfg Nat) (t : T) (ps : List Pos) : UInt64 × String :=
+  ps.foldl (fun (acc : UInt64 × String) p =>
     match t.cur.get c.S p.1 p.2 with
-    | some sl =>
-      h := mix (mix (mix (mix h p.1) p.2) sl.key) sl.val
-      if n < 64 then seq := seq ++ s!" ({p.1},{p.2},{sl.key},{sl.val})"
-    | none => h := mix h 999999
-    n := n + 1
-    p := t.cur.itNext c.S p
-    fuel := fuel - 1
-  return s!"iter n={n} h={h.toNat}" ++ (if n ≤ 64 then seq else "")
+    | some sl => (mix (mix (mix (mix acc.1 p.1) p.2) sl.key) sl.val, acc.2 ++ s!" ({p.1},{p.2},{sl.key},{sl.val})")
+    | none => (mix acc.1 999999, acc.2 ++ " (?)")) (7, "")
+
+/-- walk forward from begin to end: count, order-sensitive hash of (pos,key,val), and the sequence if short -/
+def iterFwd (c : Cfg Nat) (t : T) : String :=
+  let ps := t.cur.traverse c.S
+  let (h, seq) := hashPositions c t ps
+  s!"iter n={ps.length} h={h.toNat}" ++ (if ps.length ≤ 64 then seq else "")
 
 /-- walk backward from end to begin -/
-def iterBwd (c : Cfg Nat) (t : T) : String := Id.run do
-  let mut h : UInt64 := 7
-  let mut n := 0
-  let b := t.cur.itBegin c.S
-  let mut p := t.cur.endPos
-  let mut fuel := t.cur.cells.size + 1
-  let mut seq := ""
-  while p != b && fuel > 0 do
-    p := t.cur.itPrev c.S p
-    match t.cur.get c.S p.1 p.2 with
-    | some sl =>
-      h := mix (mix (mix (mix h p.1) p.2) sl.key) sl.val
-      if n < 64 then seq := seq ++ s!" ({p.1},{p.2},{sl.key},{sl.val})"
-    | none => h := mix h 999999
-    n := n + 1
-    fuel := fuel - 1
-  return s!"riter n={n} h={h.toNat}" ++ (if n ≤ 64 then seq else "")
+def iterBwd (c : Cfg Nat) (t : T) : String :=
+  let ps := t.cur.traverseBack c.S
+  let (h, seq) := hashPositions c t ps
+  s!"riter n={ps.length} h={h.toNat}" ++ (if ps.length ≤ 64 then seq else "")
 
 def withTab (st : St) (id : Nat) (f : Entry → St × String) : St × String :=
   match st.tabs[id]? with
